@@ -65,6 +65,18 @@ OPTION_SETS = [[], ["-z", "pack-relative-relocs"], ["--hash-style=sysv"], ["--ha
 ALLOC_WORDS = ("allocat", "didn't use up", "validate_empty", "insufficient")
 
 
+# unwind information the link has to size and write: none; ordinary frames; a frame for an EMPTY section that is kept
+# (what a function whose body is __builtin_unreachable() compiles to); frames of two kinds (two CIEs) with a dropped one between
+EH_KINDS = [
+    ("", ""),
+    (" call ehf1\n", '.section .text.ehf1,"ax",@progbits\n.globl ehf1\n.type ehf1,@function\nehf1:\n .cfi_startproc\n ret\n .cfi_endproc\n.size ehf1,.-ehf1\n'),
+    (" mov never@GOTPCREL(%rip), %rax\n", '.section .text.never,"ax",@progbits\n.globl never\n.type never,@function\nnever:\n .cfi_startproc\n .cfi_endproc\n.size never,0\n'),
+    (" call ehf3\n", '.section .text.ehf1,"ax",@progbits\n.globl ehf1\n.type ehf1,@function\nehf1:\n .cfi_startproc\n ret\n .cfi_endproc\n'
+                      '.section .text.ehf2,"ax",@progbits\n.globl ehf2\n.type ehf2,@function\nehf2:\n .cfi_startproc\n .cfi_signal_frame\n ret\n .cfi_endproc\n'
+                      '.section .text.ehf3,"ax",@progbits\n.globl ehf3\n.type ehf3,@function\nehf3:\n .cfi_startproc\n ret\n .cfi_endproc\n'),
+]
+
+
 def run(chk, replay=None):
     coq = coq_build(["C09", "C23"], ["C23/Props.v"])
     chk.add_coq(coq)
@@ -112,17 +124,17 @@ def run(chk, replay=None):
                                       ".section .tdata,\"awT\",@progbits\n.globl tv\n.type tv,@tls_object\ntv: .quad 9\n")
         open(d + "/tga.s", "w").write(".text\n.globl __tls_get_addr\n.type __tls_get_addr,@function\n__tls_get_addr: ret\n")
         sh(f"cd {d} && as --64 lib.s -o lib.o && ld -shared lib.o -o libt.so && as --64 tga.s -o tga.o", timeout=60)
-        matrix = list(itertools.product(TLS_KINDS, TLS_ACCESS, FN_KINDS, FN_ACCESS, OUT_KINDS, range(len(OPTION_SETS))))
+        matrix = list(itertools.product(TLS_KINDS, TLS_ACCESS, FN_KINDS, FN_ACCESS, OUT_KINDS, range(len(OPTION_SETS)), range(len(EH_KINDS))))
         if replay:
-            matrix = [tuple(c) for c in json.load(open(replay))["replay"]["cases"]]
+            matrix = [tuple(c) if len(c) == 7 else tuple(c) + (0,) for c in json.load(open(replay))["replay"]["cases"]]
         else:
             rng.shuffle(matrix)
             matrix = matrix[:150 if chk.tier == "quick" else 4000]
         from concurrent.futures import ThreadPoolExecutor
 
         def work(ix_m):
-            ix, (tk, ta, fk, fa, ok_, oi) = ix_m
-            src = ".text\n.globl _start\n.type _start,@function\n_start:\n" + TLS_ACCESS[ta] + FN_ACCESS[fa] + " ret\n" + TLS_KINDS[tk] + FN_KINDS[fk]
+            ix, (tk, ta, fk, fa, ok_, oi, eh) = ix_m
+            src = (".text\n.globl _start\n.type _start,@function\n_start:\n" + TLS_ACCESS[ta] + FN_ACCESS[fa] + EH_KINDS[eh][0] + " ret\n" + TLS_KINDS[tk] + FN_KINDS[fk] + EH_KINDS[eh][1])
             open(f"{d}/p{ix}.s", "w").write(src)
             rc, o = sh(f"cd {d} && as --64 p{ix}.s -o p{ix}.o", timeout=60)
             if rc != 0:
@@ -166,7 +178,7 @@ def run(chk, replay=None):
     chk.cov.update({
         "evaluations": stats["alloc_cases"] + stats["links"], "distinct_nontrivial": stats["ld_accepts"],
         "rule": "layout side: flag bits {ABSOLUTE, DYNAMIC, IFUNC, NON_INTERPOSABLE, GOT, PLT, GOT_TLS_MODULE/OFFSET/DESCRIPTOR, EXPORT_DYNAMIC, IFUNC_GOT_FOR_ADDRESS} x 6 output kinds x RELR "
-                "(exhaustive in the thorough tier); link matrix: 5 TLS symbol kinds x 6 access sequences x 5 function kinds x 5 reference kinds x {exe, pie, shared, static-pie} x 8 option sets, sampled; "
+                "(exhaustive in the thorough tier); link matrix: 5 TLS symbol kinds x 6 access sequences x 5 function kinds x 5 reference kinds x {exe, pie, shared, static-pie} x 8 option sets x 4 kinds of unwind information (none, a frame, a frame for an empty kept section, two CIEs), sampled; "
                 "non-trivial = links GNU ld accepts",
         "exhaustive": chk.tier != "quick",
         "stats": stats, "wild_other_failures": other,
